@@ -13,9 +13,36 @@ import (
 
 func init() { drivers["C07"] = driver{"C07", runC07} }
 
+// c07Typed is the document type of the typed histories (a store opened with an ItemFactory
+// that returns a pointer to a struct).
+type c07Typed struct {
+	ID string `json:"_id"`
+	V  int    `json:"v"`
+}
+
+func c07TypedOpts() interface{} {
+	return &iface.CreateDocumentDBOptions{
+		KeyExtractor: func(d interface{}) (string, error) {
+			t, ok := d.(*c07Typed)
+			if !ok {
+				return "", fmt.Errorf("not a *c07Typed: %T", d)
+			}
+			return t.ID, nil
+		},
+		Marshal:     json.Marshal,
+		Unmarshal:   json.Unmarshal,
+		ItemFactory: func() interface{} { return &c07Typed{} },
+	}
+}
+
 func docsToMap(docs []interface{}) map[string][]byte {
 	out := map[string][]byte{}
 	for _, d := range docs {
+		if t, ok := d.(*c07Typed); ok {
+			b, _ := json.Marshal(t)
+			out[t.ID] = b
+			continue
+		}
 		m, ok := d.(map[string]interface{})
 		if !ok {
 			continue
@@ -50,7 +77,12 @@ func runC07(r *Run) error {
 		if long {
 			n = 2
 		}
-		s, err := NewScen(n, "docstore", nil)
+		// the long history runs on TYPED documents (every opener passes the same options)
+		var sopts *ScenOpts
+		if long {
+			sopts = &ScenOpts{StoreSpecific: c07TypedOpts}
+		}
+		s, err := NewScen(n, "docstore", sopts)
 		if err != nil {
 			return err
 		}
@@ -68,6 +100,9 @@ func runC07(r *Run) error {
 		ver := 0
 		mk := func(k string) interface{} {
 			ver++
+			if long {
+				return &c07Typed{ID: k, V: ver}
+			}
 			return map[string]interface{}{"_id": k, "v": ver}
 		}
 		routes := newKvRoutes(n, hi)
@@ -86,6 +121,9 @@ func runC07(r *Run) error {
 			all := docsToMap(docs)
 			// a predicate query: v is even
 			evens, err := st.Query(ctx, func(d interface{}) (bool, error) {
+				if t, ok := d.(*c07Typed); ok {
+					return t.V%2 == 0, nil
+				}
 				v, _ := d.(map[string]interface{})["v"].(float64)
 				return int(v)%2 == 0, nil
 			})
